@@ -15,8 +15,8 @@ CHECK = dict(
          "delivery faults, rewind class).",
     jobs=[REPLAY,
           plain("boundary", "TestVerifBoundary", sq=1, st=1),
-          rapid("mem", "TestVerifProp", 240_000, 6_000_000, sq=7, st=5, env={"VERIF_C01_SET": "mem"}),
-          rapid("io", "TestVerifProp", 120_000, 2_000_000, sq=7, st=6, env={"VERIF_C01_SET": "io"}),
+          rapid("mem", "TestVerifProp", 240_000, 5_000_000, sq=7, st=5, env={"VERIF_C01_SET": "mem"}),
+          rapid("io", "TestVerifProp", 120_000, 1_600_000, sq=7, st=6, env={"VERIF_C01_SET": "io"}),
           fuzz("fuzz", "FuzzVerifBlobRead", 120, parallel=4)],
     technique="property-based testing (rapid) of the blob readers through all four entry points against a scripted source / in-process model registry / tampered OCI layout, "
               "with an independent crypto/sha256|sha512 oracle over the bytes handed to the caller; exhaustive boundary sweep of small lengths; native go fuzz (bytes decoded into the same Case struct) in thorough",
